@@ -637,7 +637,8 @@ class Parser(IdlVisitor):
                                     "Only errors can be thrown",
                                     position=type_ref.position
                                 ))
-        except FileNotFoundError as e:
+        except (FileNotFoundError, IsADirectoryError) as e:
+            # a directory is no IDL file either (same diagnosis as for an @import that names a directory)
             raise FileNotFoundException(Path(e.filename))
         except UnicodeDecodeError as e:
             valid_prefix = e.object[:e.start]
